@@ -333,8 +333,24 @@ pub fn followup_violations(w: &World, check_reclaim: bool) -> Vec<(String, Strin
     if check_reclaim {
         // V4b: two hours later everything in the maintained directory's .kismet_temp is reclaimed
         shim::clock_jump((7200 * SEC) as i64);
+        // Survivors reclaim concurrently: another survivor gets to the first piece of debris between this
+        // one's look at it and its unlink (the file is gone and the unlink says ENOENT).  Every later
+        // operation by any process must still succeed.
+        struct PeerReclaimsFirst(std::sync::atomic::AtomicBool);
+        impl shim::Controller for PeerReclaimsFirst {
+            fn before(&self, ev: &shim::Ev) -> shim::Action {
+                let temp = ev.path.as_deref().map(|p| p.contains("/.kismet_temp/")).unwrap_or(false);
+                if ev.kind == shim::Kind::Unlink && temp && !self.0.swap(true, std::sync::atomic::Ordering::SeqCst) {
+                    shim::Action::FailAfter(libc::ENOENT)
+                } else {
+                    shim::Action::Proceed
+                }
+            }
+        }
+        shim::set_controller(Some(std::sync::Arc::new(PeerReclaimsFirst(std::sync::atomic::AtomicBool::new(false)))));
         let r = exec_p(&maint_cache, w, &Op::Set(ops::key_for_shards("maint2", 0, 1, NSHARDS), Val::new(25, Size::One)), true);
-        expect_ok(&mut bad, "set with maintenance (2 h later)", &r);
+        shim::set_controller(None);
+        expect_ok(&mut bad, "set with maintenance (2 h later, a peer reclaiming the first piece of debris at the same time)", &r);
         let s3 = w.snapshot();
         // reclaiming debris must not damage what is published (debris may share an inode with an entry)
         for (sig, msg) in tree_violations(w, &s3, &s3) {
